@@ -491,7 +491,8 @@ def _resolve_ctor(crate, nm, ret, st):
     """fields of the value returned by merge: an aggregate, or X::new(v) looked up in X::new"""
     if ret[0] == "agg" and isinstance(ret[1], tuple) and ret[1][0] == "adt":
         return list(ret[2])
-    if ret[0] == "call" and str(ret[1]).endswith("%s::<T>::new" % nm):
+    import re as _re
+    if ret[0] == "call" and _re.search(r"%s::<\w+>::new$" % _re.escape(nm), str(ret[1])):   # (the type parameter may be called anything)
         nb = crate.body("%s::<T>::new" % nm)
         if nb is None:
             return None
